@@ -17,6 +17,7 @@ Classification per harness:
   any other failing check (panic, overflow, OOB inside real code) -> VIOLATION if the harness says no_panic, else UNDECIDED
 """
 import concurrent.futures
+import resource
 import importlib.util
 import os
 import re
@@ -79,7 +80,11 @@ def run_harness(crate, h, kani_args, log_dir):
     out = ''
     status = 'ok'
     try:
-        pr = subprocess.run(cmd, cwd=crate, env=env, capture_output=True, text=True, timeout=h.get('timeout', 900))
+        mem = int(h.get('mem_gb', 16)) << 30
+
+        def _limit():
+            resource.setrlimit(resource.RLIMIT_AS, (mem, mem))
+        pr = subprocess.run(cmd, cwd=crate, env=env, capture_output=True, text=True, timeout=h.get('timeout', 900), preexec_fn=_limit)
         out = pr.stdout + '\n' + pr.stderr
     except subprocess.TimeoutExpired as e:
         out = (e.stdout or b'').decode(errors='replace') if isinstance(e.stdout, bytes) else (e.stdout or '')
